@@ -82,6 +82,44 @@ def run(rep: Report, tier: str, seed: int) -> None:
     rep.extra.update(stats)
     rep.extra["trees"] = len(specs)
     rep.extra["public_decls_judged"] = sum(1 for s in specs for g in s.decls if g.public)
+
+    # ---- explicit inputs: declarations of one module next to constructs in OTHER modules that refer to that module
+    from ..explore import run_packed
+    from ..pkg import index_stubs
+
+    explicit = {
+        # a NewType / functional namedtuple of the module is used as a type elsewhere (handled like a foreign class)
+        "newtype-used-elsewhere": ({"ex1/__init__.py": "", "ex1/ids.py": "from collections import namedtuple\nfrom typing import NewType\n\nUserIdx1 = NewType(\"UserIdx1\", int)\nPairx1 = namedtuple(\"Pairx1\", \"a b\")\n\n\ndef make_idx1(a: int) -> int:\n    return a\n\n\nclass Registryx1:\n    sizex1: int = 0\n\n    def lookupx1(self, k: int) -> int:\n        return k\n",
+                                    "ex1/use.py": "from .ids import Pairx1, UserIdx1\n\n\ndef find_userx1(u: UserIdx1, p: Pairx1) -> UserIdx1:\n    return u\n"},
+                                   [("fun", "make_idx1"), ("class", "Registryx1"), ("attr", "sizex1"), ("fun", "lookupx1"), ("fun", "find_userx1")]),
+        # an enum / a class of the module used as a type and as a superclass in two other modules
+        "types-used-elsewhere": ({"ex2/__init__.py": "", "ex2/base.py": "from enum import Enum\n\n\nclass Kindx2(Enum):\n    AX2 = 1\n\n\nclass Shapex2:\n    def areax2(self) -> int:\n        return 1\n\n\ndef helperx2(k: Kindx2) -> Shapex2:\n    return Shapex2()\n",
+                                  "ex2/a.py": "from .base import Kindx2, Shapex2\n\n\nclass Squarex2(Shapex2):\n    def sidex2(self, k: Kindx2) -> int:\n        return 1\n",
+                                  "ex2/b.py": "from ex2base_alias import *  # type: ignore[import-not-found]  # noqa: F403\nfrom .base import Kindx2, Shapex2\n\n\ndef drawx2(s: Shapex2, k: Kindx2) -> Kindx2:\n    return k\n"},
+                                 [("enum", "Kindx2"), ("variant", "AX2"), ("class", "Shapex2"), ("fun", "areax2"), ("fun", "helperx2"), ("class", "Squarex2"), ("fun", "sidex2"), ("fun", "drawx2")]),
+    }
+
+    def build_e(us):
+        files = {f"{PKG}/__init__.py": ""}
+        for name in us:
+            files.update({f"{PKG}/{k}": v for k, v in explicit[name][0].items()})
+        return files, PKG
+
+    def on_e(us, opts, obs, files) -> None:
+        if obs.outcome != "completed":
+            rep.violation("run-completes", f"run:{obs.outcome}:{obs.crash_sig()}|explicit", {"exc": obs.exc_type + ": " + obs.exc_msg}, files=files, src_rel=PKG, opts=opts, obs=obs)
+            return
+        idx = index_stubs(obs)
+        for name in us:
+            rep.case(f"explicit:{name}", True)
+            for kind, decl in explicit[name][1]:
+                hits = idx.find(decl, kind)
+                if len(hits) == 1:
+                    rep.ok("present")
+                else:
+                    rep.violation("present" if not hits else "once", f"{'present' if not hits else 'once'}:explicit:{name}:{kind}", {"input": name, "declaration": decl, "found_in": [h[0] for h in hits]}, files=build_e([name])[0], src_rel=PKG, opts=opts)
+
+    run_packed([(list(explicit), Opts())], build_e, on_e, stats)
     rep.assumptions = [
         "publicity follows the C04 rule computed from the spec (mc/tree.py); a declaration re-exported by a public package __init__ under a public name is public",
         "which of several legitimate locations (own module, re-exporting package) is chosen is not prescribed",
